@@ -97,7 +97,7 @@ func evalSpec(s *spec) *refResult {
 		lhs int
 		rhs []int
 	}
-	var all []fullRule
+	var all, lists []fullRule
 	laTargets := map[int][]int{}
 	next := b.nT + len(s.NTs)
 	var occExprs []*sx
@@ -111,6 +111,30 @@ func evalSpec(s *spec) *refResult {
 				occSyms = append(occSyms, next)
 				fr.rhs = append(fr.rhs, next)
 				next++
+			} else if it.Rep != "" {
+				// A list is a fresh nonterminal L: L elems | elems (for "+"), L: L elems | %empty
+				// (for "*"); with a separator: P: P sep elems | elems and, for "*", L: P | %empty.
+				var el []int
+				for _, n := range it.elems() {
+					el = append(el, b.symIndex[n])
+				}
+				l := next
+				next++
+				switch {
+				case it.Sep == "" && it.Rep == "+":
+					lists = append(lists, fullRule{l, append([]int{l}, el...)}, fullRule{l, el})
+				case it.Sep == "":
+					lists = append(lists, fullRule{l, append([]int{l}, el...)}, fullRule{l, nil})
+				default:
+					p := l
+					if it.Rep == "*" {
+						p = next
+						next++
+						lists = append(lists, fullRule{l, []int{p}}, fullRule{l, nil})
+					}
+					lists = append(lists, fullRule{p, append([]int{p, b.symIndex[it.Sep]}, el...)}, fullRule{p, el})
+				}
+				fr.rhs = append(fr.rhs, l)
 			} else if it.LA != nil {
 				// A lookahead marker: derives the empty string, contributes no terminals, and makes
 				// every nonterminal it names (negated or not) reachable.
@@ -128,6 +152,7 @@ func evalSpec(s *spec) *refResult {
 		}
 		all = append(all, fr)
 	}
+	all = append(all, lists...)
 
 	// reachability from the first eoi input
 	reach := map[int]bool{}
